@@ -175,7 +175,10 @@ class TaskManager:
             assert isinstance(user_task, (Task, Future))
 
             def done_cb(future: Future) -> None:
-                self._pending_tasks.pop(name, None)
+                # The name may have been registered again (e.g., after a cancel) before this callback got to run:
+                # only forget the name if it still refers to this task.
+                if self._pending_tasks.get(name, None) is future:
+                    self._pending_tasks.pop(name, None)
                 try:
                     future.result()
                 except CancelledError:
